@@ -124,6 +124,46 @@ func (rec *prodRec) follower(c *xs.Ctx, k *pooled) *vnode.Node {
 	return f
 }
 
+// followerWarm is follower(k) after this life: the unaltered block k was delivered, verified and pooled; then the node's
+// last momentum was rolled back (Chain.RollbackTo, what InsertChain does when it adopts a side chain: the pool is
+// emptied) and inserted again, and the earlier unconfirmed blocks were gossiped again. Ledger and pool equal follower(k).
+func (rec *prodRec) followerWarm(c *xs.Ctx, k *pooled) *vnode.Node {
+	f := rec.follower(c, k)
+	if err, pan := f.AddAccountBlocks([]*nom.AccountBlock{vnode.CloneBlock(k.Block)}); err != nil || pan != nil {
+		panic(fmt.Sprintf("warm follower setup: honest gossip of the block refused: err=%v panic=%v", err, pan))
+	}
+	below, err := f.Chain.GetFrontierMomentumStore().GetMomentumByHeight(k.HP - 1)
+	if err != nil || below == nil {
+		panic(fmt.Sprintf("warm follower setup: no momentum at height %d: %v", k.HP-1, err))
+	}
+	ins := f.Chain.AcquireInsert("c13 warm follower")
+	err = f.Chain.RollbackTo(ins, below.Identifier())
+	ins.Unlock()
+	if err != nil {
+		panic(fmt.Sprintf("warm follower setup: rollback failed: %v", err))
+	}
+	if idx, err, pan := f.InsertChain(vnode.CloneBatch(rec.Batch[k.HP : k.HP+1])); err != nil || pan != nil {
+		panic(fmt.Sprintf("warm follower setup: re-insertion of momentum %d failed: idx=%d err=%v panic=%v", k.HP, idx, err, pan))
+	}
+	for _, ei := range k.Earlier {
+		e := rec.Pooled[ei]
+		if e.Block.BlockType == nom.BlockTypeContractSend {
+			continue
+		}
+		if err, pan := f.AddAccountBlocks([]*nom.AccountBlock{vnode.CloneBlock(e.Block)}); err != nil || pan != nil {
+			panic(fmt.Sprintf("warm follower setup: honest gossip of block %d refused: err=%v panic=%v", ei, err, pan))
+		}
+	}
+	if n := len(f.Chain.GetUncommittedAccountBlocksByAddress(k.Block.Address)); n > 0 {
+		for _, b := range f.Chain.GetUncommittedAccountBlocksByAddress(k.Block.Address) {
+			if b.Hash == k.Block.Hash {
+				panic("warm follower setup: the rollback did not drop the block from the pool")
+			}
+		}
+	}
+	return f
+}
+
 func blockClass(b *nom.AccountBlock) string {
 	switch b.BlockType {
 	case nom.BlockTypeUserSend:
